@@ -281,6 +281,9 @@ static void
 coap_replace_upper_lower(coap_optlist_t *optlist) {
   size_t i;
 
+  if (!optlist)
+    return;
+
   for (i = 0; i < optlist->length; i++) {
     if (optlist->data[i] >= 'A' && optlist->data[i] <= 'Z') {
       optlist->data[i] += 'a' - 'A';
